@@ -954,10 +954,13 @@ func main() {
 		})
 		completed = label
 	}
-	for n := 1; n <= maxFull; n++ {
+	onlyChains := os.Getenv("C04_ONLY_CHAINS") != "" // measuring aid: skip Form P
+	for n := 1; n <= maxFull && !onlyChains; n++ {
 		runShards(mkShards(n, false, ""), fmt.Sprintf("trees with <= %d operators over all operators", n))
 	}
-	runShards(mkShards(coreSize, true, ""), fmt.Sprintf("trees with <= %d operators over all operators and with %d over the core set", maxFull, coreSize))
+	if !onlyChains {
+		runShards(mkShards(coreSize, true, ""), fmt.Sprintf("trees with <= %d operators over all operators and with %d over the core set", maxFull, coreSize))
+	}
 	// same-level chains: every tree built from the operators of ONE level (all of them, not only the
 	// core set), from the first size the mixed trees do not reach with all operators up to chainMax
 	// operators (one fewer for the levels with many operators)
@@ -1022,7 +1025,7 @@ func main() {
 		c.Assume("a conditional in the else-branch of a conditional without parentheses (a ? b : c ? d : e, a ?: b ? c : d) groups to the right, as origami's right-recursive parseTernary and every language but PHP <= 7 have it; a parser that REJECTS such a chain (PHP 8: non-associative) is accepted, one that silently groups it to the left is reported")
 	}
 	c.Assume("instanceof, like, xor/and/or, ++/--, array/member access are not in the statement's table and are not enumerated; deeper trees than the bound are not explored")
-	if c.Exhaustive && (len(outcomes) < 4 || len(edges) < 40 || len(disc) < 60) {
+	if c.Exhaustive && !onlyChains && (len(outcomes) < 4 || len(edges) < 40 || len(disc) < 60) {
 		c.HarnessError("vacuous: %d outcome classes, %d classes of dropped parentheses, %d of them told apart from the opposite grouping by the leaf values", len(outcomes), len(edges), len(disc))
 	}
 	if c.Exhaustive && ternaryChainsGroupRight && !(edges["ternary/else:ternary"] > 0 && disc["ternary/else:ternary"] && edges["ternary/then:ternary"] > 0) {
